@@ -216,7 +216,7 @@ func (sm3 *SM3) Reset() {
 // It never returns an error.
 func (sm3 *SM3) Write(p []byte) (int, error) {
 	toWrite := len(p)
-	sm3.length += uint64(len(p) * 8)
+	sm3.length += uint64(len(p)) * 8
 	msg := append(sm3.unhandleMsg, p...)
 	nblocks := len(msg) / sm3.BlockSize()
 	sm3.update(msg)
